@@ -23,7 +23,7 @@ RULE = (
     "generated streams / single messages / structures written as files in every input format (binary, hex, pcapng, "
     "swtpm-log, auto) and converted with every output format (pretty, events, binary) as a stream, with --type T and with "
     "--type Response --command C; stdin and several files (split at message boundaries, between a command and its response, inside a message; with --in binary and with auto-detection); malformed files (warn-mode output); misspelt type / command "
-    "names and Response without a command; command names (one per first letter + a seed-dependent window; thorough all 117) each accepted for a failed response and refused when the first letter is doubled / dropped or '_', '2', 'x' is added; `type` on single messages; `example` for command codes and type names; one "
+    "names and Response without a command; command names (one per first letter + a seed-dependent window; thorough all 117) each accepted for a failed response and refused when the first letter is doubled / dropped or '_', '2', 'x' is added; `type` on single messages and on successful responses consisting of one handle (values from every handle range in turn); `example` for command codes and type names; one "
     "evaluation = one CLI invocation; distinct = distinct (sub-command, input format, output format, type choice, outcome)"
 )
 ASSUMPTIONS = [
@@ -347,6 +347,14 @@ def type_shard(shard, rec, rng, tmp):
     # binary content whose first / last byte has the value of an ASCII blank (a front-end must not "tidy" it away)
     edge = [b"\x00\x0a", b"\x20\x00\x00\x00", b"\x00\x04\x0d\x0a\x09\x20", b"\x0b"][shard.get("start", 0) % 4]
     picks.append(edge)
+    # a successful response that is nothing but one handle (and one with a session area): listed under exactly the command
+    # codes whose response handle TYPE allows that value - handles from every handle range in turn
+    HANDLES = (0x02000000, 0x03000001, 0x80000000, 0x81000001, 0x40000007, 0x01000000, 0x80FFFFFF, 0x4000000C, 0x00000001, 0x40000001)
+    h = HANDLES[(shard.get("start", 0) * 3 + int(shard.get("seed", 0))) % len(HANDLES)]
+    picks.append(bytes.fromhex("80010000000e00000000") + h.to_bytes(4, "big"))
+    h2 = HANDLES[(shard.get("start", 0) * 3 + int(shard.get("seed", 0)) + 5) % len(HANDLES)]
+    picks.append(bytes.fromhex("80020000001700000000") + h2.to_bytes(4, "big") + bytes.fromhex("00000000" "0000" "00" "0000"))
+    rec.count("type_one_handle_responses", 2)
     for i, data in enumerate(picks):
         fmt = ("binary", "hex", "auto-hex")[(i + shard.get("start", 0)) % 3]
         if data is edge:
